@@ -140,7 +140,7 @@ def job_list(tier):
             fields = range(1, top)
         else:
             ez = bias + FB          # exponent field of e = 0
-            fields = sorted(set([1, 2, ez - 127, ez - 126, ez - 125, ez - 115, ez - 114, ez - 113, ez - 112, ez - 111, ez - 110, ez - 64, ez - 19, ez - 2, ez - 1, ez, ez + 1, ez + 74, ez + 75, ez + 103, ez + 104, top - 1]) & set(range(1, top)))
+            fields = sorted((set(range(1, top, 5 if fl == 'f64' else 3)) | set([1, 2, ez - 127, ez - 126, ez - 125, ez - 115, ez - 114, ez - 113, ez - 112, ez - 111, ez - 110, ez - 64, ez - 19, ez - 2, ez - 1, ez, ez + 1, ez + 74, ez + 75, ez + 103, ez + 104, top - 1])) & set(range(1, top)))
         for sg in (0, 1):
             for be in fields:
                 jobs.append((fl, sg, be, 'any'))
